@@ -18,6 +18,7 @@ def run(ctx):
     res.rule("C08-R4", "segmentation is decided against an empty frame: the fit checker's positive answer is re-evaluated after opening a frame, "
                         "and the test compares sizeof(MessageHeader) + payload length with the free bytes")
     res.rule("C08-R5", "batch order: encode walks the range once, forwards, one putPacket per element; the frame list is only appended to")
+    res.rule("C08-R6", "every message header written into a frame gets its segment type and payload length set after the raw header copy, on every path")
     res.not_decided += ["'fits => appended', 'segment alone in its frame', 'all but last fill to max' (depend on run-time sizes)"]
     E.rule_flag_table(res, "C08-R1", m)
     obs, _ = accessors.analyse(fb, ctx.spec("layout.json"))
@@ -27,9 +28,11 @@ def run(ctx):
     E.rule_type_change_rebuilds_template(res, "C08-R3", m)
     n4 = E.rule_fit_decided_on_fresh_frame(res, "C08-R4", m)
     E.rule_batch_order(res, "C08-R5", m)
+    E.rule_header_fully_stamped(res, "C08-R6", m)
     res.floor("C08-R1", 5)
     res.floor("C08-R2", 12)
     res.floor("C08-R3", 1)
     res.floor("C08-R4", 1, n4)
     res.floor("C08-R5", 5)
+    res.floor("C08-R6", 2)
     return res
